@@ -39,8 +39,8 @@ Definition wf_data (d : data) : Prop :=
 Definition wf_item (it : item) : Prop :=
   Forall wf_data (item_variants it) /\
   match it with
-  | IEnum _ _ _ vs => Forall (fun d => d_shape d <> ShUnion) vs
-  | IItem _ => True
+  | IEnum _ _ _ vs => Forall (fun d => d_shape d <> ShUnion /\ d_is_variant d = true) vs
+  | IItem d => d_is_variant d = false
   end.
 
 Definition item_inc_flag (it : item) : bool :=
